@@ -426,12 +426,57 @@ def register_contains_object(reg):
             stage = "pass1_4_bounding_boxes_and_circumradius"
         eng.check(f"{oname}#{stage}.result_agrees_with_containment", iff(I.truth(outcome[1]), K["inside"]))
 
+    def replay(inputs, clause):
+        """The real containsObject on a catalogue: a non-convex room (square floor plan with a notch, extruded) and a
+        convex one, objects that do and do not contain their own centre (box, beam, ring), placed inside, across a wall
+        and outside, several states of NumPy's generator (PASS 3/4 sample candidate points).  Oracle independent of the
+        procedure: the room is a prism, so a vertex of the object's mesh outside the floor plan or the height range means
+        `not contained`; all vertices well inside (margin 0.3) and away from the notch means `contained`."""
+        import warnings
+
+        warnings.filterwarnings("ignore")
+        import numpy
+        import shapely.geometry as sg
+        import trimesh
+
+        from scenic.core.object_types import Object
+        from scenic.core.regions import MeshVolumeRegion
+        from scenic.core.shapes import BoxShape, MeshShape
+        from scenic.core.vectors import Vector
+
+        notch = sg.Polygon([(-10, -10), (10, -10), (10, 10), (1, 10), (1, 9), (-1, 9), (-1, 10), (-10, 10)])
+        square = sg.Polygon([(-10, -10), (10, -10), (10, 10), (-10, 10)])
+        ring = trimesh.creation.annulus(r_min=3.6, r_max=4.0, height=0.5)
+        shapes = [("box 2x2x2", lambda: BoxShape(), (2, 2, 2)), ("beam 8x0.5x0.5", lambda: BoxShape(), (8, 0.5, 0.5)), ("ring r 3.6..4", lambda: MeshShape(ring), (8, 8, 0.5))]
+        for rname, plan in (("notched room", notch), ("square room", square)):
+            mesh = trimesh.creation.extrude_polygon(plan, 10.0)
+            mesh.apply_translation((0, 0, -5.0))
+            room = MeshVolumeRegion(mesh, centerMesh=False)
+            for sname, mk, dims in shapes:
+                for x in (0.0, 5.0, 6.5, 8.0, 9.7, 15.0):
+                    for y in (0.0, -5.0):
+                        for seed in range(4 if "ring" in sname else 1):
+                            o = Object._with(position=Vector(x, y, 0), shape=mk(), width=dims[0], length=dims[1], height=dims[2])
+                            V = numpy.array(o.occupiedSpace.mesh.vertices)
+                            outside = [v for v in V if not plan.buffer(1e-6).contains(sg.Point(v[0], v[1])) or abs(v[2]) > 5 + 1e-6]
+                            hull = sg.MultiPoint([(v[0], v[1]) for v in V]).convex_hull
+                            well_inside = plan.buffer(-0.3).contains(hull) and float(numpy.abs(V[:, 2]).max()) < 4.7
+                            numpy.random.seed(seed)
+                            got = bool(room.containsObject(o))
+                            if got and outside:
+                                v = outside[0]
+                                return f"{rname}.containsObject({sname} at ({x}, {y}, 0), numpy seed {seed}) is True although the object's vertex {tuple(round(float(c), 3) for c in v)} lies outside the room"
+                            if not got and well_inside:
+                                return f"{rname}.containsObject({sname} at ({x}, {y}, 0), numpy seed {seed}) is False although every vertex of the object is at least 0.3 inside the room"
+        return None
+
     reg.add(
         C.Contract(
             f"{RG}:MeshVolumeRegion.containsObject",
             params=dict(self=C.Const(None), obj=C.Const(None)),
             setup=setup,
             post=post,
+            replay=replay,
             inline_all=True,
             bounded=True,
             note="relative to the containment kernel K8; meshes with 2 vertices each (symbolic coordinates)",
